@@ -13,6 +13,7 @@ def dispatch (line : String) : String :=
   | "pick" :: rest => pickEngine rest
   | "fetch" :: rest => fetchEngine rest
   | "cache" :: rest => cacheEngine rest
+  | "kvfs" :: rest => kvfsEngine rest
   | _ => "bad-op"
 
 partial def loop (hin hout : IO.FS.Stream) : IO Unit := do
